@@ -207,6 +207,37 @@ pub fn run(args: &[String]) {
             k += 1;
         }
     }
+    // directed: a final step that is huge compared with |xend| (1e6 -> 1e-3): the landing segment's end xold + h carries the
+    // rounding error of xold (1e-10), far above the 1e-12 slack of a point of size 1e-3; sol(xend) still has to answer
+    {
+        struct Slow;
+        impl IVP for Slow { fn ode(&self, _x: f64, y: &[f64], d: &mut [f64]) { d[0] = -1e-7 * y[0]; } }
+        let mut k = 0;
+        for method in ALL_METHODS {
+            for (x0, xend) in [(1e6, 1e-3), (-1e6, 1e-3), (1e6, -1e-3), (3.3e7, 0.7), (123456.789, 1e-5), (-1e9, 1.0 / 3.0)] {
+                let o = Options::builder().method(method).rtol(1e-6).atol(1e-9).dense_output(true).build();
+                let (status, bad) = match std::panic::catch_unwind(std::panic::AssertUnwindSafe(|| solve_ivp(&Slow, x0, xend, &[1.0], o))) {
+                    Ok(Ok(sol)) => {
+                        let mut bad = None;
+                        if sol.status == Status::Success {
+                            let (tl, yl) = (*sol.t.last().unwrap(), sol.y.last().unwrap().clone());
+                            match sol.sol(tl) {
+                                Ok(v) => if !close(&v, &yl, 1e-6) { bad = Some(format!("run over [{:e}, {:e}]: sol(t_last) = {:?} but the last sample is {:?}", x0, xend, v, yl)); },
+                                Err(e) => bad = Some(format!("run over [{:e}, {:e}] ends Success at t = {:e}, but sol(t_last) fails: {:?} (sol_span {:?})", x0, xend, tl, e, sol.sol_span())),
+                            }
+                        }
+                        (format!("{:?}", sol.status), bad)
+                    }
+                    Ok(Err(e)) => (format!("Err({:?})", e), None),
+                    Err(_) => ("panic".to_string(), Some("solve_ivp panicked".to_string())),
+                };
+                if bad.is_some() { n_fail += 1; }
+                println!("{{\"kind\":\"dense\",\"case\":\"far-origin-landing-{}\",\"problem\":\"y' = -1e-7 y\",\"method\":\"{}\",\"x0\":{:e},\"xend\":{:e},\"status\":\"{}\",\"finding_key\":\"c06-far-origin-landing-segment\",\"ok\":{},\"why\":{:?}}}",
+                    k, method_name(method), x0, xend, status, bad.is_none(), bad.unwrap_or_default());
+                k += 1;
+            }
+        }
+    }
     // directed: the last sample is xend itself while the last dense segment ends at xold + h, which may differ from xend by
     // a rounding error: the continuous solution must still answer at every reported time (and at xend)
     {
